@@ -37,14 +37,8 @@ Definition model_conv (c : case) : res cval :=
     y <- force o fuel fuel (snd x) (fst x) ;;
     match l_val (fst y), k with
     | VNil, _ => OutOfModel           (* a nil setting leaves the zero value: not a conversion *)
-    | pv, KDuration =>
-      (* reifyDuration sees a dynamic value: its text goes through time.ParseDuration *)
-      s <- to_string (eo_ftext o) pv ;;
-      match dur_lookup durs s with
-      | Some (Some ns) => Ok (CD ns)
-      | Some None => Err EOther ""
-      | None => OutOfModel
-      end
+    (* a value reached through references is converted like one written in place (durations too:
+       reifyDuration follows the chain, so a number is a number of seconds) *)
     | pv, _ => conv (eo_ftext o) (dur_lookup durs) k pv
     end
   end.
